@@ -176,7 +176,9 @@ check('C14', 'model_checking',
       'tasks (C14_Data.tla).  End to end: Pipeline.tla composes that '
       'arithmetic with BatchSimulation\'s resume rule and Analysis\' pooling '
       '(job orders, re-runs, --delete-existing, tasks stopped early, '
-      'extended requests; exhaustive, 3.4k / 334k states); behaviours from '
+      'extended requests, inputs that grow between runs, jobs launched '
+      'directly or through the generated cluster script; exhaustive, 56k / '
+      '740k states); behaviours from '
       'TLC\'s simulation are executed on the real command with real '
       'processes and result files, and Pipeline_Trace.tla validates what the '
       'files and Analysis show after every step.',
@@ -246,7 +248,10 @@ check('C06', 'model_checking',
       'DecoderContract.tla\'s memo history variable makes TLC reject any '
       'decode whose result differs from an earlier result for the same '
       'syndrome (any object), and any call that modifies the caller\'s '
-      'syndrome or the noise model\'s probability tables.',
+      'syndrome or the noise model\'s probability tables, and any syndrome '
+      'that is decoded at one point of a history and raises at another.  '
+      'Histories also contain decode calls ended by KeyboardInterrupt at '
+      'swept lines (event kind interrupted).',
       'DESIGN.md 4/C06',
       'Trusted: TLC; which decoders are deterministic (all but the sweep '
       'decoders).',
@@ -381,8 +386,9 @@ check('C20', 'model_checking',
       'objects built from the library: one description per qubit/stabilizer '
       'equal to the library\'s representation in index order and complete, '
       'H and logicals identical, decoder/deformation names exact, decode '
-      'equal to the library decoder, new-errors supported on the model\'s '
-      'Paulis.',
+      'equal to the library decoder (several slider positions), new-errors '
+      'supported on the model\'s Paulis; a decoder registered with '
+      'add_decoder is offered exactly for the codes it declares.',
       'DESIGN.md 4/C20',
       'Trusted: TLC; main.js is transcribed by hand (no JS engine). '
       'Recorded finding: rotated picture of the three 2-D colour codes.',
